@@ -7,8 +7,10 @@
 //	binary node                     -> H(left, right)
 //	edge node (path p of length l)  -> H(child, p) + l
 //
-// Zero values are absent keys. Only crypto.Pedersen / crypto.Poseidon of the repository are used
-// (trusted primitives, pinned by the baseline's test vectors).
+// Zero values are absent keys. The Pedersen hash is gnark-crypto's port of the reference
+// implementation, not the repository's own hand-optimised one (whose bit masks are part of what
+// C01 checks); Poseidon is the repository's (trusted primitive, pinned by the baseline's test
+// vectors - no second implementation is available offline).
 package refmpt
 
 import (
@@ -17,11 +19,31 @@ import (
 
 	"github.com/NethermindEth/juno/core/crypto"
 	"github.com/NethermindEth/juno/core/felt"
+	pedersenhash "github.com/consensys/gnark-crypto/ecc/stark-curve/pedersen-hash"
 )
 
 type HashFn func(a, b *felt.Felt) felt.Felt
 
-func Pedersen(a, b *felt.Felt) felt.Felt { return crypto.Pedersen(a, b) }
+func Pedersen(a, b *felt.Felt) felt.Felt { return felt.Felt(pedersenhash.Pedersen(a.Impl(), b.Impl())) }
+
+// BoundaryValues are field elements at the edges of the hash functions' operand decomposition
+// (248-bit low part + 4-bit high part) and of the field itself.
+func BoundaryValues() []felt.Felt {
+	pow := func(n uint) *big.Int { return new(big.Int).Lsh(big.NewInt(1), n) }
+	p, _ := new(big.Int).SetString("800000000000011000000000000000000000000000000000000000000000001", 16)
+	var out []felt.Felt
+	for _, b := range []*big.Int{
+		new(big.Int).Sub(p, big.NewInt(1)), new(big.Int).Sub(p, big.NewInt(2)),
+		pow(251), new(big.Int).Add(pow(251), big.NewInt(1)), new(big.Int).Sub(pow(251), big.NewInt(1)),
+		pow(250), pow(248), new(big.Int).Sub(pow(248), big.NewInt(1)), new(big.Int).Add(pow(251), pow(248)),
+		pow(128), pow(64),
+	} {
+		var f felt.Felt
+		f.SetBigInt(b)
+		out = append(out, f)
+	}
+	return out
+}
 func Poseidon(a, b *felt.Felt) felt.Felt { return crypto.Poseidon(a, b) }
 
 type kv struct {
